@@ -212,6 +212,8 @@ def check(run):
     # as.buck4 shorthand: three routes
     for i in range(run.n(25, 400)):
         A, rho, C = rnd(rng, 300, 3000, 1), rnd(rng, 0.2, 0.4, 3), rnd(rng, 5, 60, 1)
+        if rng.random() < 0.2:
+            C = 0.0               # no dispersion term: the spline must still take the Born-Mayer part down to ZERO at r_attach (seed C10_7)
         rd = round(rng.uniform(0.9, 1.6), 3)
         rm = round(rd + rng.uniform(0.3, 0.8), 3)
         ra = round(rm + rng.uniform(0.3, 0.8), 3)
